@@ -48,7 +48,11 @@ CsOfB(bb, k) == [open |-> [c \in Conns |-> KRec(k, c).s \in {"idle", "parked"}],
 Is(s) == /\ under = S(s.u) /\ ulocked = s.ul /\ upass = s.up /\ mem = S(s.m)
          /\ cache = S(s.c) /\ locked = s.l /\ noUp = s.nu /\ now = s.n /\ dead = s.d
          /\ forever = S(s.fv)
-LInit == /\ b \in 1..Len(Batches) /\ Is(Batches[b].init) /\ cs = CsOfB(b, Batches[b].init.k)
+\* a batch that mentions an identity outside the universe has no behaviour at all (hence no witness)
+CleanS(s) == S(s.u) \subseteq Ids /\ S(s.m) \subseteq Certs
+CleanB(bb) == /\ CleanS(Batches[bb].init) /\ CleanS(Batches[bb].final)
+              /\ \A i \in DOMAIN Batches[bb].ops : S(Batches[bb].ops[i].res.l1) \subseteq Ids /\ S(Batches[bb].ops[i].res.l2) \subseteq Ids
+LInit == /\ b \in 1..Len(Batches) /\ CleanB(b) /\ Is(Batches[b].init) /\ cs = CsOfB(b, Batches[b].init.k)
          /\ done = {i \in DOMAIN Batches[b].ops : Batches[b].ops[i].n = 0} /\ skp = {} /\ rls = {}
          /\ last = [op |-> "reset", arg |-> "", f |-> NoFault, res |-> OK] /\ hv = HV0 /\ ev = EV0
 
@@ -75,8 +79,10 @@ Do(i) ==
      /\ done' = done \cup {i} /\ skp' = skp /\ b' = b /\ hv' = hv /\ ev' = ev
 ParkL(c) == /\ cs.hs[c] = "called" /\ cs' = [cs EXCEPT !.hs[c] = "parked"]
             /\ Un(state) /\ last' = last /\ hv' = hv /\ ev' = ev /\ UNCHANGED <<b, done, skp, rls>>
-\* the handler went away (its client had left) before it read this request
-Skip(i) == /\ Ready(i) /\ Ops0[i].opt
+\* the handler never read this request in the batch: it went away (its client had left), or it is still parked in a
+\* Wait in front of it when the batch ends (the bytes stay unread in the socket)
+Skip(i) == /\ i \notin done /\ i \notin skp /\ Ops0[i].opt
+           /\ \A j \in DOMAIN Ops0 : (Ops0[j].c = Ops0[i].c /\ Ops0[j].n < Ops0[i].n) => j \in done \cup skp
            /\ skp' = skp \cup {i}
            /\ Un(state) /\ last' = last /\ hv' = hv /\ ev' = ev /\ cs' = cs /\ UNCHANGED <<b, done, rls>>
 LNext == \/ \E i \in DOMAIN Ops0 : Do(i) \/ Skip(i)
